@@ -1617,6 +1617,15 @@ def stream_corpus(ctx, binpath):
     par = [(c["entry"], c["s"]) for c in corpus if c.get("k") == "parse"]
     if par:
         compare_entries(ctx, binpath, par, "corpus_parse")
+    acc = [c for c in corpus if c.get("k") == "parse" and "accept" in c]
+    if acc:
+        res = ctx.run_impl(binpath, [{"k": "parse", "entry": c["entry"], "s": c["s"]} for c in acc])
+        for c, r in zip(acc, res):
+            ctx.count()
+            ok = bool(r) and "ok" in r
+            if ok != c["accept"]:
+                ctx.violation({"stream": "corpus_accept", "k": "parse", "entry": c["entry"], "s": c["s"]},
+                              {"what": "request of the supported fragment must be %s" % ("accepted" if c["accept"] else "rejected"), "impl": r})
     mut = [c["s"] for c in corpus if c.get("k") == "mut"]
     if mut:
         run_mutants(ctx, binpath, mut, "corpus_mut", 0)
@@ -1664,6 +1673,24 @@ def stream_deep(ctx, binpath):
     ctx.stream("deep", cases=len(cases), depth=400, spec_violations=nv)
 
 
+def stream_followers(ctx, binpath):
+    """Exhaustive small scope at the grammar level: every sequence of up to three tokens of a small alphabet after a
+    complete triple, inside a group graph pattern and inside a quad block (the look-aheads after `;`, the optional
+    `.`, `}` / GRAPH / UNION / nested braces).  Implementation == model on the whole result."""
+    import itertools
+    toks = [";", ",", ".", "}", "{", "GRAPH ?g {", "UNION", "?x", "<q>", "a"]
+    if ctx.thorough:
+        toks += ["FILTER(?x)", "# c\n", "\"l\"", "_:b"]
+    cases = []
+    for n in (0, 1, 2, 3):
+        for seq in itertools.product(toks, repeat=n):
+            tail = " ".join(seq)
+            cases.append(("combined", "SELECT * WHERE { ?s ?p ?o " + tail + " }"))
+            cases.append(("combined", "INSERT DATA { <s> <p> <o> " + tail + " }"))
+    compare_entries(ctx, binpath, cases, "followers")
+    ctx.coverage["exhaustive_scope"] = ctx.coverage.get("exhaustive_scope", "") + "; every sequence of <= 3 tokens of %d after a complete triple in a group pattern and in a quad block (%d requests)" % (len(toks), len(cases))
+
+
 def keyword_assumption(ctx):
     """the model's keyword comparison is exact only for keywords without `k`/`K` (U+212A KELVIN SIGN lowercases to `k`)"""
     src = open(os.path.join(vf.REPO, "kolibrie", "src", "parser.rs")).read()
@@ -1696,7 +1723,7 @@ def run(ctx):
     on = (lambda name: True) if not only else (lambda name: name in only.split(","))
     keyword_assumption(ctx)
     for name, fn in (("corpus", stream_corpus), ("known", replay_known), ("tables", stream_tables), ("scan", stream_scan),
-                     ("tree", stream_tree), ("mutants", stream_mutants), ("deep", stream_deep)):
+                     ("followers", stream_followers), ("tree", stream_tree), ("mutants", stream_mutants), ("deep", stream_deep)):
         if on(name):
             fn(ctx, binpath)
             ctx.log("stream %s done" % name)
